@@ -113,6 +113,7 @@ def gen_cases(c):
     fam += [(t, chart_runs.DONE_WORDS, 'done-family-history') for h in ('hs', 'hd') for t in chart_runs.done_family(hist=h)]
     fam += [(t, chart_runs.HISTORY_WORDS, 'history-family') for t in chart_runs.history_family()]
     fam += [(t, [[b'e'], [b'e', b'e']], 'multi-target-family') for t in chart_runs.multi_target_family()]
+    fam += [(t, chart_runs.PARALLEL_HISTORY_WORDS, 'parallel-history-family') for t in chart_runs.parallel_history_family()]
     for k, (t, words, org) in enumerate(fam):
         if quick and org != 'done-family-history' and k % 2:
             continue
